@@ -84,7 +84,14 @@ func hC05Resp() {
 	script := &respScript{msgs: []wireMsg{{abstract: []byte{'r'}}}}
 	script.respHdrs = http.Header{"X-Resp": {string(v[:1]), "h2"}, "X-Resp-Bin": {"AAEC"}}
 	script.trailerHdrs = http.Header{"X-Trail": tvals, "X-Trail-Bin": {"/w=="}}
-	script.announce = target == ProtocolGRPC && verifChoose("announce", 2) == 1
+	if target == ProtocolGRPC {
+		switch verifChoose("announce", 3) {
+		case 1:
+			script.announce = true
+		case 2:
+			script.announce, script.announceLow = true, true // names declared in lower case
+		}
+	}
 	isErr := verifChoose("error", 2) == 1
 	if isErr {
 		script.errCode, script.errMsg = 5, "nf"
